@@ -204,7 +204,7 @@ def tree_validate(doc: Doc, root: Any, leafkey: str) -> Dict[str, int]:
     root without Limits and with exactly one of leafkey/Kids; every other node
     with Limits = [least, greatest] key below it; leaves sorted strictly
     ascending; Kids are indirect references; intermediate nodes have Kids only."""
-    stats = {"nodes": 0, "leaves": 0, "depth": 0, "maxfan": 0, "entries": 0, "direct_kids": 0}
+    stats = {"nodes": 0, "leaves": 0, "depth": 0, "maxfan": 0, "entries": 0, "direct_kids": 0, "limit_elem_refs": 0}
 
     def walk(node: Any, is_root: bool, depth: int) -> Tuple[Any, Any]:
         d = deref(doc, node)
@@ -254,7 +254,11 @@ def tree_validate(doc: Doc, root: Any, leafkey: str) -> Dict[str, int]:
                     raise TreeError("sibling key ranges overlap")
             lo, hi = ss[0][0], ss[-1][1]
         if limits is not None:
-            lim = deref(doc, limits)
+            lim = list(deref(doc, limits))
+            for x in lim:
+                if isinstance(x, Ref):                       # a limit written as an indirect reference
+                    stats["limit_elem_refs"] += 1
+            lim = [deref(doc, x) for x in lim]
             if [bytes(x) if isinstance(x, bytes) else x for x in lim] != [lo, hi]:
                 raise TreeError("Limits %r != [%r, %r]" % (lim, lo, hi))
         return lo, hi
@@ -296,7 +300,7 @@ def tree_lookup(doc: Doc, root: Any, leafkey: str, key: Any) -> Tuple[bool, Any]
         nxt = None
         for k in deref(doc, _get(d, "Kids")):
             kd = deref(doc, k)
-            lo, hi = deref(doc, _get(kd, "Limits"))
+            lo, hi = (deref(doc, x) for x in deref(doc, _get(kd, "Limits")))
             if lo <= key <= hi:
                 nxt = kd
                 break
